@@ -319,11 +319,12 @@ impl<'a> Driver<'a> {
             let mut legal: Vec<u32> = mask.clone();
             if legal.len() > self.cfg.max_branch {
                 // keep EOS-like (last) tokens and the lowest ids; deterministic bound
-                let eos = self.f.env.tok_trie().eos_token();
-                let keep_eos = legal.contains(&eos);
-                legal.truncate(self.cfg.max_branch - keep_eos as usize);
-                if keep_eos && !legal.contains(&eos) {
-                    legal.push(eos);
+                let eos_all: Vec<u32> = self.f.env.tok_trie().eos_tokens().iter().copied().filter(|e| legal.contains(e)).collect();
+                legal.truncate(self.cfg.max_branch.saturating_sub(eos_all.len()).max(1));
+                for e in eos_all {
+                    if !legal.contains(&e) {
+                        legal.push(e);
+                    }
                 }
                 self.count("branch_truncated");
             }
